@@ -653,7 +653,7 @@ def classify_err(extra_err=()):
     return f
 
 
-def classify_reach(target_pats, yes="HIT", no="MISS", S=None, depth=2):
+def classify_reach(target_pats, yes="HIT", no="MISS", S=None, depth=2, stop_pats=None):
     """label by whether a call matching target_pats is reachable from that side but not from the other"""
     ps = pats(target_pats)
 
@@ -666,8 +666,12 @@ def classify_reach(target_pats, yes="HIT", no="MISS", S=None, depth=2):
             hit = {c.bb for c in body.calls if call_matches_any(c, ps)}
         # path-sensitive in the compared boolean itself: later branches on the same value keep their side
         dt, df = same_bool_edges(body, site.result, True), same_bool_edges(body, site.result, False)
-        rt = bool(reach_with(body, tt, drop_edges=dt)[0] & hit)
-        rf = bool(reach_with(body, ft, drop_edges=df)[0] & hit)
+        stop = set()
+        if stop_pats:
+            sp = pats(stop_pats)
+            stop = {c.bb for c in body.calls if call_matches_any(c, sp)}
+        rt = bool(reach_with(body, tt, drop_edges=dt, avoid=stop)[0] & hit)
+        rf = bool(reach_with(body, ft, drop_edges=df, avoid=stop)[0] & hit)
         if not rt and not rf:
             return None
         return (yes if rt else no, yes if rf else no)
@@ -1108,4 +1112,36 @@ def enum_arms_of_call(body, adt, call_pat):
         for d in body.defs().get(dl, []):
             if d[0] == "assign" and d[3].get("k") == "discr" and d[3]["p"][0] in dests:
                 out.append((sw, arms, other))
+    return out
+
+
+def direct_aggs(body, op, adt_prefix, depth=0, seen=None):
+    """ADT aggregates (path::Variant) the operand's value is built from, following only copies, refs, casts and
+    value-preserving calls (into_vec/into/clone/..): the *direct* construction, not everything it was derived from"""
+    seen = set() if seen is None else seen
+    out = set()
+    if "p" not in op or depth > 12:
+        return out
+    l = op["p"][0]
+    if l in seen:
+        return out
+    seen.add(l)
+    for d in body.defs().get(l, []):
+        if d[0] == "assign":
+            if d[2][1]:
+                continue
+            rv = d[3]
+            k = rv.get("k")
+            if k in ("use", "cast"):
+                out |= direct_aggs(body, rv["o"], adt_prefix, depth + 1, seen)
+            elif k == "ref":
+                out |= direct_aggs(body, {"p": rv["p"]}, adt_prefix, depth + 1, seen)
+            elif k == "agg" and str(rv.get("adt", "")).startswith(adt_prefix):
+                out.add(rv["adt"].split("::")[-1] + "::" + str(rv.get("variant")))
+                for o in rv.get("ops", []):
+                    out |= direct_aggs(body, o, adt_prefix, depth + 1, seen)
+        else:
+            c = d[2]
+            if rx(r"(::into_vec|::into|::clone|::to_owned|::as_ref|::to_vec|Deref::deref|::as_slice)$").search(c.callee) and c.args:
+                out |= direct_aggs(body, c.args[0], adt_prefix, depth + 1, seen)
     return out
